@@ -1965,6 +1965,56 @@ func c12GenReqs(g *c12Gen, cfg genCfg, playBlock int) ([]c12Req, string) {
 				}
 			}
 		}
+	case f < 94:
+		// a parent P in flight together with transactions that spend one of ITS outputs (a child can only be assembled
+		// by somebody who knows P, e.g. its sender): P pays a payment, a fee and the change in a drawn order; C and the
+		// rival D both spend the same non-fee output of P. One-at-a-time orders admit P and at most one of C / D.
+		fam = "parent+children"
+		owner, u := g.out(-1)
+		if u == nil || u.Amount.Cmp(big.NewInt(100)) < 0 {
+			add(g.random(cfg))
+			add(g.random(cfg))
+			break
+		}
+		to := rapid.IntRange(0, 5).Draw(rt, "pto")
+		pay := big.NewInt(int64(rapid.IntRange(1, 40).Draw(rt, "ppay")))
+		fee := big.NewInt(int64(rapid.IntRange(1, 9).Draw(rt, "pfee")))
+		rest := new(big.Int).Sub(new(big.Int).Sub(u.Amount, pay), fee)
+		outs := []hx.OutSpec{{To: to, Amount: pay.String()}, {To: -1, Amount: fee.String()}, {To: owner, Amount: rest.String()}}
+		perm := rapid.Permutation(c12Iota(3)).Draw(rt, "poutorder")
+		g.nm.Seq++
+		P := &hx.TxSpec{From: owner, Seq: g.nm.Seq, Version: 3, Ins: []hx.InRef{c12InRef(owner, u)}}
+		for _, i := range perm {
+			P.Outs = append(P.Outs, outs[i])
+		}
+		pc := *P
+		ptx, _ := g.nm.BuildOnModel(&pc, g.s)
+		if ptx == nil {
+			add(g.random(cfg))
+			add(g.random(cfg))
+			break
+		}
+		// the output of P the children spend: the change or the payment, whichever the draw picks
+		var offs []int
+		for off, o := range P.Outs {
+			if o.To >= 0 {
+				offs = append(offs, off)
+			}
+		}
+		off := offs[rapid.IntRange(0, len(offs)-1).Draw(rt, "childoff")]
+		co := P.Outs[off]
+		child := func() *c12Req {
+			g.nm.Seq++
+			return &c12Req{Kind: "dotx", Tx: &hx.TxSpec{From: co.To, Seq: g.nm.Seq, Version: 3,
+				Ins:  []hx.InRef{{Addr: co.To, Txid: hex.EncodeToString(ptx.Txid), Off: int32(off), Amount: co.Amount}},
+				Outs: []hx.OutSpec{{To: rapid.IntRange(0, 5).Draw(rt, "cto"), Amount: co.Amount}}}}
+		}
+		add(&c12Req{Kind: "dotx", Tx: P})
+		add(child())
+		add(child())
+		if rapid.Bool().Draw(rt, "extra") {
+			add(g.random(cfg))
+		}
 	default:
 		fam = "random"
 		n := rapid.IntRange(2, 4).Draw(rt, "nrandom")
@@ -2038,7 +2088,7 @@ func c12RolledBackOwners(nm *hx.NodeMachine, b int) []int {
 // 10/14/14 as in the switch of c12GenReqs), interleaved so that every prefix of the slots has the
 // families in about these proportions.
 var c12FamilySlots = func() [100]int {
-	bounds := []int{0, 26, 38, 50, 62, 72, 86, 100}
+	bounds := []int{0, 26, 38, 50, 62, 72, 86, 94, 100}
 	var slots [100]int
 	given := make([]int, len(bounds)-1)
 	for i := 0; i < 100; i++ {
@@ -2498,6 +2548,34 @@ func TestC12(t *testing.T) {
 		defer nm.Close()
 		cs.Op(c12StateTrace{Reqs: reqs})
 		pick, mode := c12RapidPicker(rt, len(reqs), 60)
+		if fam == "parent+children" && rapid.IntRange(0, 2).Draw(rt, "parentparked") > 0 {
+			// half-directed schedule: the parent parks at a drawn protocol point, one child runs to its end, the parent
+			// finishes, then the other child (in a drawn order); the rest runs lowest-first. The requests have been
+			// shuffled: the parent is the request whose transaction id the children cite
+			parent, kids := -1, []int{}
+			ids := map[string]int{}
+			for i, rq := range reqs {
+				if rq.Kind == "dotx" && rq.Tx != nil {
+					spec := *rq.Tx
+					if tx, _ := nm.BuildOnModel(&spec, s); tx != nil {
+						ids[hex.EncodeToString(tx.Txid)] = i
+					}
+				}
+			}
+			for i, rq := range reqs {
+				if rq.Kind == "dotx" && rq.Tx != nil && len(rq.Tx.Ins) == 1 {
+					if pi, ok := ids[rq.Tx.Ins[0].Txid]; ok && pi != i {
+						parent = pi
+						kids = append(kids, i)
+					}
+				}
+			}
+			if parent >= 0 && len(kids) == 2 {
+				at := rapid.SampledFrom([]string{"y:dotx.locked", "y:dotx.beforeWrite", "y:dotx.beforePublish"}).Draw(rt, "parkat")
+				c1 := rapid.IntRange(0, 1).Draw(rt, "firstchild")
+				pick, mode = c12DirPicker([]c12Dir{{parent, at}, {kids[c1], "done"}, {parent, "done"}, {kids[1-c1], "done"}}), "sched-parent-parked"
+			}
+		}
 		if _, hit := c12StateShape(c12ReqKeysets(nm, s, reqs)); hit && c12Exclude[c12FindingWindow] {
 			cs.Exclude(c12FindingWindow)
 			pick = c12NoWindowPreempt(pick)
